@@ -112,13 +112,15 @@ struct HList : public HashTable<Key_T, HLItem_T<Key_T>> {
     }
 
     void operator+=(const HList &src) {
-        const SizeT  n_size   = (Size() + src.Size());
-        const HItem *src_item = src.First();
-        const HItem *src_end  = src_item + src.Size();
+        const SizeT n_size = (Size() + src.Size());
 
         if (n_size > Capacity()) {
             resize(n_size);
         }
+
+        // Taken after the resize: src can be this object.
+        const HItem *src_item = src.First();
+        const HItem *src_end  = src_item + src.Size();
 
         while (src_item < src_end) {
             if (src_item->Hash != 0) {
